@@ -7,7 +7,7 @@ import XotModel.Lemmas.FatomNav
 namespace XotModel
 open HTree
 
-theorem ctxBelow_none_of_not_mem {h : Nat} {t : HTree} (hm : h ∉ handles t) : ctxBelow h t = none := by
+theorem fa_ctxBelow_none_of_not_mem {h : Nat} {t : HTree} (hm : h ∉ handles t) : ctxBelow h t = none := by
   have := ctxBelow_parent h t
   rw [parentBelow_none_of_not_mem hm] at this
   cases hc : ctxBelow h t with
@@ -23,12 +23,12 @@ theorem ctxKids_here (p : Nat) (k : HTree) (r : List HTree) : ∀ (l acc : List 
     unfold handlesList at hn
     have hna := List.nodup_append.1 hn
     have hk : k.handle ∈ handlesList (l ++ k :: r) := by
-      rw [handlesList_append]
+      rw [fa_handlesList_append]
       exact List.mem_append_right _ (by unfold handlesList; exact List.mem_append_left _ (handle_mem_handles k))
     have hnk : k.handle ∉ handles a := fun h' => hna.2.2 _ h' _ hk rfl
     have hne : ¬ a.handle = k.handle := fun e => hnk (e ▸ handle_mem_handles a)
     unfold ctxKids
-    simp only [hne, if_false, ctxBelow_none_of_not_mem hnk]
+    simp only [hne, if_false, fa_ctxBelow_none_of_not_mem hnk]
     rw [ctxKids_here p k r l (acc ++ [a]) hna.2.1]
     simp
 
@@ -77,12 +77,12 @@ mutual
         have hkN : k.handle ∈ handles (.node q v (l ++ k :: r)) := by
           unfold handles
           apply List.mem_cons_of_mem
-          rw [handlesList_append]
+          rw [fa_handlesList_append]
           exact List.mem_append_right _ (by unfold handlesList; exact List.mem_append_left _ (handle_mem_handles k))
         have hk : k.handle ∈ handlesList ks := findList?_handles_sub q ks _ e _ hkN
         have hnk : k.handle ∉ handles a := fun h' => hna.2.2 _ h' _ hk rfl
         have hne : ¬ a.handle = k.handle := fun e' => hnk (e' ▸ handle_mem_handles a)
-        simp only [hne, if_false, ctxBelow_none_of_not_mem hnk]
+        simp only [hne, if_false, fa_ctxBelow_none_of_not_mem hnk]
         exact ctxKids_of_find q v l k r ks hna.2.1 e p (acc ++ [a])
 end
 
@@ -107,11 +107,11 @@ theorem rootsCtx_of_find (q : Nat) (v : Value) (l : List HTree) (k : HTree) (r :
       have hkN : k.handle ∈ handles (.node q v (l ++ k :: r)) := by
         unfold handles
         apply List.mem_cons_of_mem
-        rw [handlesList_append]
+        rw [fa_handlesList_append]
         exact List.mem_append_right _ (by unfold handlesList; exact List.mem_append_left _ (handle_mem_handles k))
       have hk : k.handle ∈ handlesList rs := findList?_handles_sub q rs _ e _ hkN
       have hnk : k.handle ∉ handles a := fun h' => hna.2.2 _ h' _ hk rfl
-      rw [ctxBelow_none_of_not_mem hnk]
+      rw [fa_ctxBelow_none_of_not_mem hnk]
       exact rootsCtx_of_find q v l k r rs hna.2.1 e
 
 namespace Forest
@@ -197,7 +197,7 @@ theorem prev_ne_next {f : Forest} (w : f.W) {x y z : Nat} (hy : f.prevSibling x 
     List.Sublist.nodup (findList?_sublist _ _ _ hg) w.nodup
   unfold handles at hn
   have hn2 := (List.nodup_cons.1 hn).2
-  rw [handlesList_append, show handlesList (c.self :: c.right) =
+  rw [fa_handlesList_append, show handlesList (c.self :: c.right) =
     handles c.self ++ handlesList c.right from rfl] at hn2
   have hn3 := List.nodup_append.1 hn2
   have h1 : y ∈ handlesList c.left :=
